@@ -2,6 +2,7 @@ import Pms.Model.Sq
 import Pms.Model.Wave
 import Pms.Gen.Sq
 import Pms.Gen.Wave
+import Pms.Lemmas.Sq
 
 /-! C04 — S(q): property theorems.  The data `Pms.Gen.Sq.*`, `Pms.Gen.Wave.*` is regenerated from the source on every run. -/
 namespace Pms.Sq
@@ -25,5 +26,73 @@ Sq_ab is fed by exactly one product `acc_a · conj(acc_b)` and divided exactly o
 theorem C04_products_norm : ∀ K ∈ List.range' 1 5,
     checkFor Pms.Gen.Sq.methods Pms.Gen.Sq.dispatch K (fun m => m.ok K) = true := by
   decide +kernel
+
+/-- for K > 5 species `getresults` runs the unary body, which is sound for the total S(q) and has no partial column -/
+theorem C04_dispatch_many : ∀ K > 5, checkFor Pms.Gen.Sq.methods Pms.Gen.Sq.dispatch K (fun m => m.ok K) = true := by
+  intro K hK
+  have hd : Pms.Gen.Sq.dispatch = [("==", 1, "unary"), ("==", 2, "binary"), ("==", 3, "ternary"), ("==", 4, "quarternary"),
+      ("==", 5, "quinary"), (">", 5, "unary")] := by decide +kernel
+  have h6 : checkFor Pms.Gen.Sq.methods Pms.Gen.Sq.dispatch 6 (fun m => m.ok 6) = true := by decide +kernel
+  have e : dispatchOf Pms.Gen.Sq.dispatch K = dispatchOf Pms.Gen.Sq.dispatch 6 := by
+    rw [hd]
+    have h1 : (K == 1) = false := by simp; omega
+    have h2 : (K == 2) = false := by simp; omega
+    have h3 : (K == 3) = false := by simp; omega
+    have h4 : (K == 4) = false := by simp; omega
+    have h5 : (K == 5) = false := by simp; omega
+    have h7 : decide (K > 5) = true := by simp; omega
+    simp [dispatchOf, cmpHolds, List.find?, h1, h2, h3, h4, h5, h7]
+  have ek : ∀ m : Method, m.ok K = m.ok 6 := by
+    intro m
+    have p1 : Spec.pairs K = Spec.pairs 6 := by unfold Spec.pairs; simp; omega
+    have c1 : (K == 1) = false := by simp; omega
+    have c2 : decide (K > 5) = true := by simp; omega
+    unfold Method.ok Spec.columns
+    rw [p1]; simp [c1, c2]
+  unfold checkFor methodFor at h6 ⊢
+  rw [e]
+  cases hh : dispatchOf Pms.Gen.Sq.dispatch 6 with
+  | none => simp [hh] at h6
+  | some nm =>
+    simp only [hh] at h6 ⊢
+    cases hm : List.find? (fun m => m.name == nm) Pms.Gen.Sq.methods with
+    | none => simp [hm] at h6
+    | some m => simp only [hm] at h6 ⊢; rw [ek]; exact h6
+
+section refinement
+variable {F : Type} [Field F] [LinearOrder F] [IsStrictOrderedRing F]
+
+/-- **Impl = Spec, per wave vector** (before the rounding and the group-by, which are applied identically to both sides):
+for every species count K (1..5: the K-ary body; > 5: the unary body), for every number of frames T, particles N,
+wave vectors, every type assignment with ids in 1..K (`uniq = [1..K]` is `np.unique`'s output then) and ARBITRARY phase
+arrays c, s: the method dispatched by the current source has exactly the documented columns, its `Sq` column is the
+frame average of |ρ|²/N and each of its `Sq_ab` columns is the frame average of Re[ρ_a conj ρ_b]/√(N_a N_b). -/
+theorem C04_refines (sqrt : F → F) (hs : SqrtOK sqrt) (K : ℕ) (hK : 1 ≤ K) (m : Method)
+    (hm : methodFor Pms.Gen.Sq.methods Pms.Gen.Sq.dispatch K = some m)
+    (T N : ℕ) (ty : ℕ → ℕ → ℕ) (hty : ∀ f < T, ∀ i < N, 1 ≤ ty f i ∧ ty f i ≤ K) (c s : ℕ → ℕ → ℕ → F) (k : ℕ) :
+    m.columns = "q" :: Spec.columns K ∧
+    m.value sqrt T N (typecount (List.range' 1 K) N (ty 0)) ty c s "Sq" k = Spec.Stot T N c s k ∧
+    ∀ p ∈ Spec.pairs K, m.value sqrt T N (typecount (List.range' 1 K) N (ty 0)) ty c s (colName p.1 p.2) k
+        = Spec.S sqrt T N ty c s p.1 p.2 k := by
+  have hok : m.ok K = true := by
+    by_cases h5 : K ≤ 5
+    · have := C04_products_norm K (by rw [List.mem_range'_1]; omega)
+      unfold checkFor at this; rw [hm] at this; exact this
+    · have := C04_dispatch_many K (by omega)
+      unfold checkFor at this; rw [hm] at this; exact this
+  unfold Method.ok at hok
+  simp only [Bool.and_eq_true, Bool.or_eq_true, beq_iff_eq, decide_eq_true_eq, List.all_eq_true] at hok
+  obtain ⟨⟨⟨⟨hr, hn⟩, ht⟩, hc⟩, hp⟩ := hok
+  refine ⟨hc, value_total sqrt hn ht _ ty c s k, ?_⟩
+  intro p hpm
+  obtain ⟨h2, h5, h1, h12, hk⟩ := mem_pairs hpm
+  have hr' : m.okRouting K = true := by
+    rcases hr with (h | h) | h
+    · omega
+    · omega
+    · exact h
+  exact value_pair hs hr' ty hty c s ⟨h1, by omega⟩ ⟨by omega, hk⟩ (hp p hpm) k
+
+end refinement
 
 end Pms.Sq
